@@ -122,7 +122,8 @@ Example C02_nonvacuous_literal :
   eq_complex 20 fl_assign (TOpt t_int) TNil = Some true /\
   eq_complex 20 fl_assign (TOpen (TOpt t_int)) (TMixed [t_int; TNil]) = Some true /\
   eq_complex 20 fl_assign (TOpen t_str) (TMixed []) = Some true /\
-  eq_complex 20 fl_reassign (TMixed [TNil; t_int]) (TOpen (TOpt t_int)) = Some true /\
+  eq_complex 20 fl_reassign (TOpen (TOpt t_int)) (TMixed [TNil; t_int]) = Some true /\
+  eq_complex 20 fl_unwrapping (TMixed [TNil; t_int]) (TOpen (TOpt t_int)) = Some true /\
   expr_ty (TMixed [TMixed []; TMixed [t_int; TNil]]) = true /\
   eq_complex 20 fl_assign t_int TNil = Some false.
 Proof. vm_compute. repeat split; reflexivity. Qed.
@@ -131,7 +132,9 @@ Example C02_nonvacuous_compat :
   eq_complex 20 fl_assign (TOpt t_int) t_int = Some true /\
   eq_complex 20 fl_assign (TOpen (TOpt t_int)) (TOpen t_int) = Some true /\
   eq_complex 20 fl_assign (TOpen t_int) (TMixed [t_int; t_int]) = Some true /\
-  eq_complex 20 fl_return t_int (TOpt t_int) = Some true /\
+  eq_complex 20 fl_return t_int (TOpt t_int) = Some false /\
+  eq_complex 20 fl_reassign t_int (TOpt t_int) = Some false /\
+  eq_complex 20 fl_unwrapping t_int (TOpt t_int) = Some true /\
   eq_complex 20 fl_assign t_int t_str = Some false /\
   skel (TOpen (TOpt t_int)) = skel (TMixed [t_int; TAlias 1%N t_int]).
 Proof. vm_compute. repeat split; reflexivity. Qed.
